@@ -19,13 +19,17 @@ SysF(o, x) ==
 MaxAbsA(o) == FMaxAbs([k \in 1..(Len(o.A) * Len(o.A)) |-> o.A[((k - 1) \div Len(o.A)) + 1][((k - 1) % Len(o.A)) + 1]])
 
 \* Steffensen catalogue: contraction G and its fixed-point residual
-G(name, x) ==
+G(o, x) ==
+  LET name == o.g IN
   CASE name = "cos" -> FCos(x)
     [] name = "expm" -> FExp(FNeg(x))
     [] name = "heron" -> FMul(FHalf, FAdd(x, FDiv(F2, x)))
     [] name = "sinhalf" -> FAdd(F1, FMul(FHalf, FSin(x)))
     [] name = "affine" -> FAdd(FMul(FOfRat(1, 4), x), FOfInt(3))
     [] name = "quad" -> FDiv(FAdd(FMul(x, x), F1), FOfInt(3))
+    [] name = "logshift" -> FLn(FAdd(x, F2))
+    [] name = "sin09" -> FAdd(FMul(FOfDec("0.9"), FSin(x)), FOfDec("0.3"))
+    [] name = "affp" -> FAdd(FMul(o.gp[1], x), o.gp[2])           \* slope and intercept carried by the case
 
 KSys == FOfInt(8)
 KRes == FOfInt(64)
@@ -52,7 +56,7 @@ SystemBad(o) ==
 SteffBad(o) ==
   LET r == o.obs x == r.x[1] IN
   (IF r.ret = "ok" /\ ~FIsFinite(x) THEN {"result_is_finite_not_nan"} ELSE {})
-  \cup (IF r.ret = "ok" /\ FIsFinite(x) /\ ~FLe(FAbs(FSub(G(o.g, x), x)), FAdd(FMul(KSys, o.tol), FMul(FOfInt(8), FEps)))
+  \cup (IF r.ret = "ok" /\ FIsFinite(x) /\ ~FLe(FAbs(FSub(G(o, x), x)), FAdd(FMul(KSys, o.tol), FMul(FMul(FOfInt(8), FEps), FAdd(F1, FAbs(x)))))
           THEN {"steffensen_returns_the_fixed_point"} ELSE {})
   \cup (IF o.regular /\ r.ret = "err" THEN {"regular_problem_returns_ok"} ELSE {})
 
